@@ -263,7 +263,7 @@ func c06CostChild(c *vc.Ctx) bool {
 	idx, probes := 0, 0
 	c06CostFamilies(n, deep, func(wlen int, u, v, x []byte) {
 		ks := []int{256}
-		if deep && wlen <= 2 {
+		if deep && (wlen > 0 || len(x) == 0) {
 			ks = []int{256, 1024}
 		}
 		i := idx
@@ -277,6 +277,10 @@ func c06CostChild(c *vc.Ctx) bool {
 			cur.Store(int64(i)<<8 | int64(ci))
 			for _, k := range ks {
 				probes++
+				if probes%1000 == 0 {
+					enc.Encode(c06CostLine{Probes: probes})
+					out.Flush()
+				}
 				why, pn := cs.probe(g, u, v, x, k)
 				if pn != nil {
 					enc.Encode(c06CostLine{Case: t, Key: fmt.Sprintf("panic pumped [%s] %q (%q)^%d %q", g, u, v, 4*k, x),
@@ -354,17 +358,18 @@ func c06CostPhase(c *vc.Ctx, s *c06SpaceT) bool {
 				}()
 				sc := bufio.NewScanner(stdout)
 				sc.Buffer(make([]byte, 1<<20), 1<<24)
-				done, hang := false, -1
+				done, hang, shardProbes := false, -1, 0
 				for sc.Scan() {
 					var l c06CostLine
 					if json.Unmarshal(sc.Bytes(), &l) != nil {
 						continue
 					}
-					if l.Done {
-						done = true
+					if l.Done || (l.Case == nil && l.Probes > 0) {
+						done = l.Done
 						mu.Lock()
-						totalProbes += l.Probes
+						totalProbes += l.Probes - shardProbes
 						mu.Unlock()
+						shardProbes = l.Probes
 						continue
 					}
 					if l.Hang {
